@@ -14,6 +14,8 @@ structure Facts where
   commitOrder : List String
   /-- `DB.Commit`: the version PUT and the flush are error-guarded (`if err != nil { return … }`) -/
   commitChecksErrors : Bool
+  /-- `DB.Commit` remembers a failed flush (`flushErr`, refuses to commit again) and a failed version PUT (`unstored`, part of `IsDirty`) -/
+  commitRemembersFailure : Bool
   /-- `moveMergedRoots`: per parent, order of `s.merged.Store` and `DeleteObjectWithContext` -/
   retireOrder : List String
   /-- `moveMergedRoots`: `if newRoot == key { continue }` -/
